@@ -75,7 +75,7 @@ func RTNativeX(pkg string, doc, bolt bool) string {
 		sb.WriteString("\t\"github.com/vmihailenco/msgpack/v5\"\n")
 	}
 	if bolt {
-		sb.WriteString("\t\"os\"\n\t\"go.etcd.io/bbolt\"\n")
+		sb.WriteString("\t\"go.etcd.io/bbolt\"\n")
 	}
 	sb.WriteString(`)
 
